@@ -79,22 +79,43 @@ theorem return_cancels_all {c : Cfg} {s s' : State} (hs : step c s (.walkReturn 
     cases hcn : s.cancel n <;> simp [hcn]
   · simp at hb
 
-/-- Exit status after an interrupt: whenever `Walk` returns through the cancelled context, grog exits
-    non-zero — either `Walk` returns the context error, or fail-fast had been triggered and the
-    returned completions contain the failure. -/
-theorem exit_nonzero {c : Cfg} {s s' : State} (ok : CfgOK c) (h : Reach c s)
-    (hs : step c s (.walkReturn true) = some s') : exitNonZero c s' = true := by
+/-- Exit status after an interrupt: in every reachable state with a cancelled context, **however** `Walk` returns — through
+    `ctx.Done()` or through the wait group (all routines finished, some of them possibly `aborted` without a completion) —
+    grog exits non-zero: `Walk` returns the context error, or fail-fast had been triggered and the returned completions
+    contain the failure. -/
+theorem exit_nonzero {c : Cfg} {s s' : State} {b : Bool} (ok : CfgOK c) (h : Reach c s) (hc : s.ctx = true)
+    (hs : step c s (.walkReturn b) = some s') : exitNonZero c s' = true := by
   obtain ⟨_, hh⟩ := step_walkReturn.mp hs
-  rcases hh with ⟨_, _, rfl⟩ | ⟨hb, _⟩
-  · cases hff : s.ff with
-    | false => simp [exitNonZero]
+  have key : ∀ sn : Node → Phase, sn = s.phase →
+      (some (!s.ff) == some true || c.sel.any fun n => sn n == Phase.failed) = true := by
+    intro sn hsn
+    cases hff : s.ff with
+    | false => simp
     | true =>
       obtain ⟨a, ha, hf⟩ := (reach_inv ok h).ffWhy hff
-      simp only [exitNonZero, Bool.or_eq_true, List.any_eq_true]
-      exact Or.inr ⟨a, ha, by simp [hf]⟩
-  · simp at hb
+      simp only [Bool.or_eq_true, List.any_eq_true]
+      exact Or.inr ⟨a, ha, by simp [hsn, hf]⟩
+  rcases hh with ⟨_, _, rfl⟩ | ⟨_, _, rfl⟩
+  · exact key _ rfl
+  · have := key s.phase rfl
+    simpa [exitNonZero, hc] using this
 
-example : (step (Ex.chain2 false) (Ex.after (Ex.chain2 false) [.wake 0, .ctxCancel]) (.walkReturn true)).isSome = true := by decide
+/-- in particular after an interrupt that left a node `aborted` and all routines finished (the case in which both branches
+    of `Walk`'s select are ready) -/
+example : exitNonZero (Ex.chain2 false)
+    (Ex.after (Ex.chain2 false) [.wake 0, .ctxCancel, .cbReturn 0 .cancelled, .walkReturn true, .deliverCancel 1, .exit 1]) = true ∧
+    (step (Ex.chain2 false) (Ex.after (Ex.chain2 false) [.wake 0, .ctxCancel, .cbReturn 0 .cancelled, .deliverCancel 1]) (.walkReturn false)) = none := by
+  decide
+
+/-- Regression witness (code before 1e66bd4, found by the statement review and reproduced by the check on the real
+    `Walk`: 8 of 120000 walks under a pre-cancelled context): one selected node, the context is cancelled, the callback
+    reports the cancellation, all routines are done — the old `done` branch returned without an error and without a failed
+    completion, i.e. exit status 0 after an interrupt; the repaired branch returns the context error. -/
+theorem silent_success_witness_old :
+    let c : Cfg := { sel := [0], deps := fun _ => [], desc := fun _ => [], failFast := false }
+    let s := Ex.after c [.wake 0, .ctxCancel, .cbReturn 0 .cancelled]
+    (walkReturnDoneOld c s).map (exitNonZero c) = some false ∧ (step c s (.walkReturn false)).map (exitNonZero c) = some true := by
+  decide
 
 /-- an interrupted walk still reaches a final state: deadlock freedom holds with cancellation (the
     statement of C04 instantiated): quiescent ⇒ returned ∧ all routines finished -/
@@ -104,17 +125,15 @@ theorem interrupted_walk_finishes {c : Cfg} {s : State} (ok : CfgOK c) (h : Reac
 
 example : (run (Ex.chain2 false) (init (Ex.chain2 false)) Ex.intRun).isSome = true := by decide
 
-/-- Exit status over the whole life cycle of `grog build` / `grog test` / `grog run` (loading, selection,
-    waiting for the workspace lock, execution, and the run phase of `grog run`): once the context is
-    cancelled, the only step that ends the process with status 0 is the end of an execution phase in which
-    the walk had already finished through the wait group without a failure — and never for `grog run`,
-    whose binary is refused or killed. In particular an interrupt while waiting for the lock or while the
-    binary of `grog run` runs always gives a non-zero exit status. -/
+/-- Exit status over the whole life cycle of `grog build` / `grog test` / `grog run` (loading, selection, waiting for the
+    workspace lock, execution, and the run phase of `grog run`): once the context is cancelled **no** step ends the process
+    with status 0 — a cancelled load fails, the lock wait gives up with an error, `Walk` returns the context error whichever
+    branch it takes, the binary of `grog run` is refused or killed. -/
 theorem exit_nonzero_all_phases (cmd : Life.Cmd) {s s' : Life.State} {e : Life.Ev}
-    (hc : s.ctx = true) (hs : Life.step cmd s e = some s') (h0 : s'.phase = .exited 0) :
-    s.phase = .executing ∧ e = .executed (.finished false) ∧ cmd ≠ .run := by
+    (hc : s.ctx = true) (hs : Life.step cmd s e = some s') : s'.phase ≠ .exited 0 := by
   obtain ⟨ph, cx⟩ := s
   simp only at hc; subst hc
+  intro h0
   cases e <;> simp only [Life.step] at hs
   case cancel => cases ph <;> simp at hs
   case loadDone err =>
@@ -126,16 +145,9 @@ theorem exit_nonzero_all_phases (cmd : Life.Cmd) {s s' : Life.State} {e : Life.E
   case lockGaveUp => split at hs <;> simp at hs; subst hs; simp at h0
   case executed r =>
     split at hs
-    · rename_i hp
-      cases r with
+    · cases r with
       | viaCtx => simp at hs; subst hs; simp at h0
-      | finished f =>
-        cases f
-        · simp at hs; subst hs
-          by_cases hr : cmd = .run
-          · simp [hr] at h0
-          · exact ⟨hp, rfl, hr⟩
-        · simp at hs; subst hs; simp at h0
+      | finished f => cases f <;> simp at hs <;> (subst hs; simp at h0)
     · simp at hs
   case binStarted =>
     split at hs
@@ -149,6 +161,7 @@ example : Life.step .build ⟨.lockWait, true⟩ .lockGaveUp = some ⟨.exited 1
 example : Life.step .run ⟨.running, true⟩ (.binExit 0) = some ⟨.exited 1, true⟩ := by decide
 example : Life.step .run ⟨.starting, true⟩ .binRefused = some ⟨.exited 1, true⟩ := by decide
 example : Life.step .test ⟨.executing, true⟩ (.executed .viaCtx) = some ⟨.exited 1, true⟩ := by decide
+example : Life.step .build ⟨.executing, true⟩ (.executed (.finished false)) = some ⟨.exited 1, true⟩ := by decide
 
 /-- and under a cancelled context the binary of `grog run` is never started -/
 theorem run_binary_not_started_after_cancel (cmd : Life.Cmd) (s : Life.State) (hc : s.ctx = true) :
